@@ -42,6 +42,9 @@ pub struct Spec {
 	pub extra: Extra,
 	/// random start block content (true) or zeros except mandatory fields (false)
 	pub rich_start: bool,
+	/// use exactly this Game Start / Game End payload (C05)
+	pub start_override: Option<Vec<u8>>,
+	pub end_override: Option<Vec<u8>>,
 }
 
 impl Spec {
@@ -127,7 +130,7 @@ pub fn name_field(width: usize, rng: &mut Rng) -> Vec<u8> {
 	out
 }
 
-fn ascii_field(width: usize, rng: &mut Rng) -> Vec<u8> {
+pub fn ascii_field(width: usize, rng: &mut Rng) -> Vec<u8> {
 	let n = rng.below(width);
 	let mut out: Vec<u8> = (0..n).map(|_| b'!' + (rng.below(90) as u8)).collect();
 	out.push(0);
@@ -267,7 +270,10 @@ pub fn build(s: &Spec, rng: &mut Rng) -> Built {
 	truth.table = sizes.iter().map(|(c, s)| (*c, *s as u16)).collect();
 	let mut events: Vec<(u8, usize, usize)> = vec![];
 	let base = 15; // file offset of raw[0]
-	let st = start_block(s, rng);
+	let st = match &s.start_override {
+		Some(b) => b.clone(),
+		None => start_block(s, rng),
+	};
 	events.push((0x36, base + raw.len(), st.len()));
 	push_event(&mut raw, 0x36, &st);
 	truth.start = st;
@@ -341,7 +347,10 @@ pub fn build(s: &Spec, rng: &mut Rng) -> Built {
 		truth.frames.push(o);
 	}
 	if s.ends > 0 {
-		let e = end_block(v, x.end, rng);
+		let e = match &s.end_override {
+			Some(b) => b.clone(),
+			None => end_block(v, x.end, rng),
+		};
 		for _ in 0..s.ends {
 			events.push((0x39, base + raw.len(), e.len()));
 			push_event(&mut raw, 0x39, &e);
@@ -488,6 +497,8 @@ pub fn random_spec(rng: &mut Rng, ver: (u8, u8, u8), size: usize) -> Spec {
 		metadata: if rng.chance(1, 4) { None } else { Some(gen_meta(rng, 3, 4)) },
 		extra: Extra::default(),
 		rich_start: rng.chance(3, 4),
+		start_override: None,
+		end_override: None,
 	}
 }
 
@@ -508,5 +519,7 @@ pub fn base_spec(ver: (u8, u8, u8), ports: Vec<(u8, bool)>, nframes: usize) -> S
 		metadata: None,
 		extra: Extra::default(),
 		rich_start: false,
+		start_override: None,
+		end_override: None,
 	}
 }
